@@ -29,6 +29,10 @@ Inductive cact :=
 | ARet                       (* structured only: return statement *)
 | ABrk                       (* structured only: break out of the innermost loop / switch *)
 | ACont                      (* structured only: continue the innermost loop *)
+| AWait (w : string)         (* an operation that can wait for a peer or for another goroutine: Accept, a
+                                read or write on a connection, a handshake, a handler call, a sleep, a
+                                channel operation. Emitted for the server only (the client holds its
+                                mutex across the exchange by design: AXchg) *)
 | AIrregular (why : string). (* something the extractor refuses to interpret *)
 
 (* accesses to state protected by the mutex: the tracked fields and the
@@ -191,6 +195,7 @@ Definition cc_act_held (a : cact) (h : bool) : option bool :=
   | ALock => if h then None else Some true        (* Lock while holding: self-deadlock *)
   | AUnlock => if h then Some false else None     (* Unlock of a mutex this thread does not hold *)
   | ARd _ | AWr _ | ATx | ARx | ACloseT => if h then Some true else None
+  | AWait _ => if h then None else Some false     (* waiting for a peer while holding the mutex *)
   | _ => None                                     (* AIrregular, structured-only actions *)
   end.
 
@@ -350,7 +355,7 @@ Definition cc_act_eqb (a b : cact) : bool :=
   match a, b with
   | ALock, ALock | AUnlock, AUnlock | ATx, ATx | ARx, ARx | ACloseT, ACloseT
   | AXchg, AXchg | ARet, ARet | ABrk, ABrk | ACont, ACont => true
-  | ARd f, ARd g | AWr f, AWr g | ACall f, ACall g | AIrregular f, AIrregular g => String.eqb f g
+  | ARd f, ARd g | AWr f, AWr g | ACall f, ACall g | AIrregular f, AIrregular g | AWait f, AWait g => String.eqb f g
   | _, _ => false
   end.
 
